@@ -45,6 +45,10 @@ pub struct MenuOpt {
     pub recover_plain: bool,
     pub recover_paginated: bool,
     pub recover_receivers: Vec<Option<String>>,
+    /// admin-forced recovery of the refundable packets of the staker (all ids; with a repeated id)
+    pub recover_forced: bool,
+    /// the transfer module answers the next transfer with no reply data / undecodable data (deviation)
+    pub reply_faults: bool,
     pub fee_withdraw: Vec<Rel>,
     pub halt_resume: bool,
     pub slashed_resume: bool,
@@ -79,6 +83,8 @@ impl MenuOpt {
             recover_plain: true,
             recover_paginated: false,
             recover_receivers: vec![],
+            recover_forced: false,
+            reply_faults: false,
             fee_withdraw: vec![Rel::Exact],
             halt_resume: false,
             slashed_resume: false,
@@ -246,6 +252,27 @@ pub fn std_menu(s: &Sim, o: &MenuOpt) -> Vec<Act> {
         }
         for r in &o.recover_receivers {
             a.push(recover(&p20("x"), None, None, r.clone()));
+        }
+        if o.recover_forced {
+            let staker = n20(k, "staker");
+            let ids: Vec<u64> = s.refundable().filter(|p| p.receiver == staker && p.denom == sdn).map(|p| p.seq).collect();
+            if !ids.is_empty() {
+                a.push(recover(&adm(), None, Some(ids.clone()), None));
+                // the same ids with one of them repeated (adjacent and non-adjacent)
+                let mut rep = ids.clone();
+                rep.push(ids[0]);
+                a.push(recover(&adm(), None, Some(rep), None));
+                if ids.len() >= 2 {
+                    a.push(recover(&adm(), None, Some(vec![ids[0], ids[0], ids[1]]), None));
+                }
+            }
+        }
+    }
+    if o.reply_faults {
+        if s.w.ibc.reply_fault != 0 {
+            a.push(Act::ReplyFault { mode: 0 });
+        } else if dev_left && inflight == 0 {
+            a.push(Act::ReplyFault { mode: 1 });
         }
     }
     // fee withdrawal
